@@ -75,8 +75,13 @@ def run(ctx):
                           if not q else "quick: TLC prints a random 1/25 of each space"))
     ctx.assumptions += ["which path a table takes is decided by reading canFastMergeProllyTrees (merge_prolly_rows.go:260): no hook observes it; the only observable "
                         "trace of the path is merge.MergeStats itself (the fast path never counts Adds/Modifications/Deletes)",
-                        "amplification: a model key is a block of R consecutive primary keys with identical c1,c2 and distinct pad; F filler rows are never edited"]
+                        "amplification: a model key is a block of R consecutive primary keys with identical c1,c2 and distinct pad; F filler rows are never edited",
+                        "chunk-edge binding (pure-update triples, int cells): the leaf boundaries of the built table are read from its prolly tree; one model key stands for {a row of leaf A, a row of leaf B, the LAST key of leaf C}, the other for {first or last key of A, first or a middle key of C} (A,B,C consecutive inner leaves)"]
     batches = bh.make_batches(ctx, sel, "c30", [], ctx.q(6, 8), binder, extra=extra)
+    # chunk-edge binding: model keys on the first / middle / LAST keys of three consecutive leaves of a dense multi-leaf table
+    sb, nsc = bh.scatter_batches(ctx, tri, ctx.q(48, 600), ctx.q(24, 300))
+    batches += sb
+    ctx.cov["chunk_edge_cases"] = nsc
     good = bh.make_batches(ctx, [c for c in both if c["m"][0]["conf"]][:1], "c30", [], 1, binder, extra=lambda rng, c: {"amp": {"R": 2, "F": 10, "seed": 7}})
     if good:
         bh.selftest(ctx, binary, good[0], corrupt, soft_prefix="fast-differs-from-slow")
